@@ -424,6 +424,9 @@ def run(ctx):
         rule_tiling(ctx, F)
         rule_union(ctx, F)
         rule_trailing_extras(ctx, F)
+        # after an edit every byte of the new text is attributed to exactly one node: the reshaping cases of ts_subtree_edit (shared with C10.P3)
+        import C10
+        C10.rule_geometry(ctx, F)
         # a reused EOF leaf ends the tree: its range veto must look to the end of the file (shared with C01.P6)
         import C01
         C01.rule_saturation(ctx, F)
